@@ -27,7 +27,7 @@ git status --porcelain | awk '/^\?\?/ {print $2}' | grep '_test.go$' | while rea
 mods="."; if grep -q '^diff --git a/cache/' "$S/patch.diff"; then mods="./cache"; fi
 for m in $mods; do (cd $W/$m && go test -vet=off -count=1 ./... 2>&1 | grep -E "^(--- FAIL|FAIL|ok|panic)" ); done > /tmp/seedverify-$ID-suite.log
 fails=$(grep -c '^--- FAIL' /tmp/seedverify-$ID-suite.log)
-known='TestHandleHeaders|TestNeutrinoSyncWithHeadersImport|TestNeutrinoImportThenP2PSync|TestNeutrinoSyncWithoutHeadersImport'
+known='TestWorkManagerProgressTimeoutFailuresDontReset|TestHandleHeaders|TestNeutrinoSyncWithHeadersImport|TestNeutrinoImportThenP2PSync|TestNeutrinoSyncWithoutHeadersImport'
 newfails=$(grep '^--- FAIL' /tmp/seedverify-$ID-suite.log | grep -Ev "$known" | wc -l)
 echo "demo_with_rc=$rcw demo_without_rc=$rco suite_fail_lines=$fails new_failures=$newfails"
 if [ $rcw -ne 0 ] && [ $rco -eq 0 ] && [ $newfails -eq 0 ]; then
